@@ -83,11 +83,50 @@ package pppoe
 //@ func zeroBytes
 //@   modifies b
 
-//@ func (p *IPPool) Allocate
-//@   modifies p.available, p.allocated
+// ---- server.go: IPPool, the pool PPPoE client addresses are assigned from (C01, C05) ----
+//
+// Abstract view: allocated (session id -> address) and the free list available, both owned
+// by mu. ipkey(x) is the identity of x's net.IP.Equal class. The lock invariants say: the
+// free list holds pairwise different addresses (avdist), none of which is held by a session
+// (avfree), and no two sessions hold the same address (inj).
+//@ type IPPool
+//@   owns mu: available allocated
+//@   inv nonnil: self.allocated != nil
+//@   inv avnn: forall i int :: 0 <= i && i < len(self.available) ==> self.available[i] != nil
+//@   inv alnn: forall s string :: s in self.allocated ==> self.allocated[s] != nil
+//@   inv avdist: forall i int, j int :: 0 <= i && i < j && j < len(self.available) ==> ipkey(self.available[i]) != ipkey(self.available[j])
+//@   inv avfree: forall i int, s string :: 0 <= i && i < len(self.available) && s in self.allocated ==> ipkey(self.available[i]) != ipkey(self.allocated[s])
+//@   inv inj: forall s string, t string :: s in self.allocated && t in self.allocated && s != t ==> ipkey(self.allocated[s]) != ipkey(self.allocated[t])
 
-//@ func (p *IPPool) Release
+// Allocate (C01): a session that already holds an address gets the same one and nothing
+// changes; otherwise the head of the free list moves to the session, every other binding
+// is untouched and nobody else holds the returned address. (C05): nil is returned iff the
+// session holds nothing and the free list is empty; free + held is conserved.
+//@ func (p *IPPool) Allocate
+//@   indep
 //@   modifies p.available, p.allocated
+//@   ensures locked(sessionID in p.allocated) ==> result == locked(p.allocated[sessionID]) && p.available == locked(p.available) && dom(p.allocated) == locked(dom(p.allocated)) && vals(p.allocated) == locked(vals(p.allocated))
+//@   ensures !locked(sessionID in p.allocated) && locked(len(p.available)) > 0 ==> result == locked(p.available[0]) && dom(p.allocated) == locked(dom(p.allocated))[sessionID := true] && vals(p.allocated) == locked(vals(p.allocated))[sessionID := result]
+//@   ensures !locked(sessionID in p.allocated) && locked(len(p.available)) > 0 ==> len(p.available) == locked(len(p.available)) - 1 && forall i int :: 0 <= i && i < len(p.available) ==> p.available[i] == locked(p.available[i+1])
+//@   ensures result != nil ==> sessionID in p.allocated && p.allocated[sessionID] == result && forall s string :: s in p.allocated && s != sessionID ==> ipkey(p.allocated[s]) != ipkey(result)
+//@   ensures result != nil ==> forall i int :: 0 <= i && i < len(p.available) ==> ipkey(p.available[i]) != ipkey(result)
+//@   ensures (result == nil) <==> (!locked(sessionID in p.allocated) && locked(len(p.available)) == 0)
+//@   ensures result == nil ==> p.available == locked(p.available) && dom(p.allocated) == locked(dom(p.allocated)) && vals(p.allocated) == locked(vals(p.allocated))
+//@   ensures len(p.available) + card(p.allocated) == locked(len(p.available) + card(p.allocated))
+
+// Release (C05): exactly the session's address goes back to the free list, every other
+// binding and every other free-list entry is untouched; releasing a session that holds
+// nothing changes nothing.
+//@ func (p *IPPool) Release
+//@   indep
+//@   modifies p.available, p.allocated
+//@   sets pppRel = pppRel + 1
+//@   sets pppRelID = sessionID
+//@   ensures locked(sessionID in p.allocated) ==> dom(p.allocated) == locked(dom(p.allocated))[sessionID := false] && len(p.available) == locked(len(p.available)) + 1 && p.available[locked(len(p.available))] == locked(p.allocated[sessionID])
+//@   ensures forall i int :: 0 <= i && i < locked(len(p.available)) ==> p.available[i] == locked(p.available[i])
+//@   ensures forall s string :: s != sessionID ==> p.allocated[s] == locked(p.allocated[s]) && (s in p.allocated) == locked(s in p.allocated)
+//@   ensures !locked(sessionID in p.allocated) ==> p.available == locked(p.available) && dom(p.allocated) == locked(dom(p.allocated)) && vals(p.allocated) == locked(vals(p.allocated))
+//@   ensures len(p.available) + card(p.allocated) == locked(len(p.available) + card(p.allocated))
 
 //@ func SerializeTags
 //@   modifies nothing
@@ -141,8 +180,29 @@ package pppoe
 //@ func (s *Server) handlePADT
 //@   ghost lastSession *Session = nil
 //@   ghost removedID mathint = 0 - 1
+//@   ghost pppRel mathint = 0
+//@   ghost pppRelID string = ""
 //@   modifies *
 //@   ensures removedID != 0 - 1 ==> lastSession != nil && lastSession.ID == removedID && old(sameBytes(clientMAC, lastSession.ClientMAC))
+// (C05) a session that is removed gave its client address back to the pool, exactly once
+//@   ensures removedID != 0 - 1 && old(s.clientIPPool) != nil ==> pppRel == 1 && pppRelID == old(lastSession.SessionID)
+//@   ensures removedID == 0 - 1 ==> pppRel == 0
+
+// (C05) LCP Terminate-Request ends the session: its client address goes back to the pool
+//@ func (s *Server) handleLCPTermRequest
+//@   requires session != nil && pkt != nil
+//@   ghost removedID mathint = 0 - 1
+//@   ghost pppRel mathint = 0
+//@   ghost pppRelID string = ""
+//@   modifies *
+//@   ensures removedID == old(session.ID)
+//@   ensures old(s.clientIPPool) != nil ==> pppRel == 1 && pppRelID == old(session.SessionID)
+
+// (C05) expiry: cleanupLoop expires sessions through expireSessions, which releases the address
+// of every session of the snapshot that is no longer registered (frame only; the count of
+// releases is not decided, see replays/pppoe_IPPool_broadcast_and_session_end_leak.go)
+//@ func (s *Server) expireSessions
+//@   modifies *
 
 // ---- lcp.go: LCP option-negotiation automaton (C11) ----
 //
